@@ -1,3 +1,569 @@
 package main
 
-func cmdCheck(args []string) {}
+import (
+	"bytes"
+	"crypto/sha1"
+	"encoding/json"
+	"flag"
+	"fmt"
+	"os"
+	"os/exec"
+	"path/filepath"
+	"runtime"
+	"sort"
+	"strings"
+	"sync"
+	"time"
+
+	"symgo/interp"
+	"symgo/solver"
+)
+
+// HRun is one harness run of a property check.
+type HRun struct {
+	Pkg     string         `json:"pkg"`
+	Fn      string         `json:"fn"`
+	Params  map[string]int `json:"params"`
+	Sched   bool           `json:"sched"`
+	Preempt int            `json:"preempt"`
+	Race    bool           `json:"race"`
+	Note    string         `json:"note"`
+}
+
+type PropSpec struct {
+	Quick    []HRun   `json:"quick"`
+	Thorough []HRun   `json:"thorough"`
+	Level    string   `json:"level"`
+	Assume   []string `json:"assumptions"`
+	Bounds   string   `json:"bounds"`
+}
+
+type KnownFinding struct {
+	ID       string         `json:"id"`
+	Property string         `json:"property"`
+	Harness  string         `json:"harness"`
+	Label    string         `json:"label"`
+	Where    map[string]any `json:"where"`
+	What     string         `json:"what"`
+}
+
+type KnownFile struct {
+	Findings []KnownFinding `json:"findings"`
+	Fixed    []struct {
+		Property string `json:"property"`
+		Commit   string `json:"commit"`
+		What     string `json:"what"`
+	} `json:"fixed"`
+}
+
+func cmdCheck(args []string) {
+	fs := flag.NewFlagSet("check", flag.ExitOnError)
+	repo := fs.String("repo", "/repo", "repository")
+	verif := fs.String("verif", "/verif", "verif dir")
+	prop := fs.String("prop", "", "property id")
+	tier := fs.String("tier", "quick", "quick|thorough")
+	workers := fs.Int("workers", runtime.NumCPU(), "workers")
+	noReplay := fs.Bool("noreplay", false, "skip native replay (development)")
+	fs.Parse(args)
+	os.Exit(runCheck(*repo, *verif, *prop, *tier, *workers, *noReplay))
+}
+
+func runCheck(repo, verif, prop, tier string, workers int, noReplay bool) int {
+	t0 := time.Now()
+	var specs map[string]PropSpec
+	data, err := os.ReadFile(filepath.Join(verif, "checks", "props.json"))
+	if err != nil {
+		fmt.Println("ENGINE-ERROR", err)
+		return 3
+	}
+	if err = json.Unmarshal(data, &specs); err != nil {
+		fmt.Println("ENGINE-ERROR props.json:", err)
+		return 3
+	}
+	spec, ok := specs[prop]
+	if !ok {
+		fmt.Println("ENGINE-ERROR unknown property", prop)
+		return 3
+	}
+	var known KnownFile
+	if data, err = os.ReadFile(filepath.Join(verif, "known_findings.json")); err == nil {
+		if err = json.Unmarshal(data, &known); err != nil {
+			fmt.Println("ENGINE-ERROR known_findings.json:", err)
+			return 3
+		}
+	}
+	runs := spec.Quick
+	if tier == "thorough" && len(spec.Thorough) > 0 {
+		runs = spec.Thorough
+	}
+	seed := 0
+	fmt.Sscan(os.Getenv("VERIF_SEED"), &seed)
+
+	os.RemoveAll(filepath.Join(verif, "replays", prop))
+	harnessDir := filepath.Join(verif, "harness")
+	prog, err := interp.Load(repo, harnessDir)
+	if err != nil {
+		fmt.Println("ENGINE-ERROR", err)
+		writeEvidence(verif, prop, tier, seed, spec, nil, nil, time.Since(t0), "engine error: "+err.Error(), 0, nil)
+		return 3
+	}
+	fmt.Printf("[%s %s] loaded %s in %.1fs\n", prop, tier, repo, time.Since(t0).Seconds())
+
+	knownIDs := map[string]bool{}
+	for _, k := range known.Findings {
+		knownIDs[k.ID] = true
+	}
+	var results []*interp.HarnessResult
+	status := 0
+	var problems []string
+	for _, r := range runs {
+		cfg := &interp.Config{SolverTimeoutMs: 5000, MaxSteps: 30_000_000, ConcCap: 64, Workers: workers,
+			Params: r.Params, Sched: r.Sched, Preempt: r.Preempt, Race: r.Race, Known: knownIDs, Tier: tier}
+		if tier == "thorough" {
+			cfg.SolverTimeoutMs = 30000
+		}
+		if cfg.Params == nil {
+			cfg.Params = map[string]int{}
+		}
+		pkgPath := interp.RepoModule
+		if r.Pkg != "" && r.Pkg != "." {
+			pkgPath += "/" + r.Pkg
+		}
+		res, err := interp.RunHarness(prog, cfg, pkgPath, r.Fn, func(f string, a ...any) { fmt.Printf(f+"\n", a...) })
+		if err != nil {
+			fmt.Println("ENGINE-ERROR", err)
+			problems = append(problems, err.Error())
+			status = 3
+			continue
+		}
+		results = append(results, res)
+		fmt.Printf("[%s] %s %v: paths=%d completed=%d obligations=%d discharged=%d violations(classes)=%d inconclusive=%d wall=%.1fs\n",
+			prop, r.Fn, r.Params, res.Paths, res.Completed, res.Obligs, res.Discharged, len(res.Violations), len(res.Incon), res.Wall.Seconds())
+		for k, n := range res.Incon {
+			fmt.Printf("INCONCLUSIVE property=%s harness=%s x%d: %s\n", prop, r.Fn, n, k)
+			problems = append(problems, "inconclusive: "+k)
+			status = 3
+		}
+		for k, n := range res.EngineErrs {
+			fmt.Printf("ENGINE-ERROR property=%s harness=%s x%d: %s\n", prop, r.Fn, n, k)
+			problems = append(problems, "engine error: "+k)
+			status = 3
+		}
+		if res.Completed == 0 {
+			fmt.Printf("VACUOUS property=%s harness=%s: no path reached the end of the harness\n", prop, r.Fn)
+			problems = append(problems, "vacuous: no completed path in "+r.Fn)
+			status = 3
+		}
+		for _, c := range res.Expected {
+			if res.Covers[c] == 0 {
+				fmt.Printf("VACUOUS property=%s harness=%s: cover label %q never reached\n", prop, r.Fn, c)
+				problems = append(problems, "vacuous: cover "+c+" not reached in "+r.Fn)
+				status = 3
+			}
+		}
+	}
+
+	// ---- native replay of every violation class ----
+	type outcome struct {
+		v          interp.Violation
+		run        HRun
+		replayPath string
+		reproduced bool
+		diverged   bool
+		nativeDiag map[string]any
+		output     string
+		known      *KnownFinding
+	}
+	var outs []*outcome
+	for i, res := range results {
+		for _, v := range res.ViolationList() {
+			outs = append(outs, &outcome{v: v, run: runs[i]})
+		}
+	}
+	violations := 0
+	knownSeen := map[string]bool{}
+	if len(outs) > 0 && !noReplay {
+		bins := map[string]string{}
+		for _, o := range outs {
+			key := o.run.Pkg
+			if o.run.Race {
+				key += "|race"
+			}
+			if _, ok := bins[key]; ok {
+				continue
+			}
+			bin, err := buildReplayBinary(repo, verif, prog, o.run.Pkg, o.run.Race)
+			if err != nil {
+				fmt.Println("ENGINE-ERROR building native replay binary:", err)
+				problems = append(problems, "replay build failed: "+err.Error())
+				status = 3
+			}
+			bins[key] = bin
+		}
+		rdir := filepath.Join(verif, "replays", prop)
+		os.MkdirAll(rdir, 0o755)
+		var wg sync.WaitGroup
+		sem := make(chan struct{}, workers)
+		for _, o := range outs {
+			key := o.run.Pkg
+			if o.run.Race {
+				key += "|race"
+			}
+			bin := bins[key]
+			if bin == "" {
+				continue
+			}
+			wg.Add(1)
+			sem <- struct{}{}
+			go func(o *outcome) {
+				defer wg.Done()
+				defer func() { <-sem }()
+				rp := writeReplay(rdir, prop, tier, o.v, o.run, knownIDs)
+				o.replayPath = rp
+				out, derr := runReplay(repo, bin, o.run.Pkg, rp)
+				o.output = out
+				o.reproduced, o.diverged, o.nativeDiag = judgeReplay(o.v, out, derr)
+			}(o)
+		}
+		wg.Wait()
+		for _, o := range outs {
+			if o.replayPath == "" {
+				continue
+			}
+			switch {
+			case o.reproduced:
+				if k := matchKnown(known.Findings, prop, o.v, o.nativeDiag); k != nil {
+					o.known = k
+					if !knownSeen[k.ID] {
+						knownSeen[k.ID] = true
+						fmt.Printf("KNOWN-FINDING: property=%s %s [%s]\n", prop, k.What, k.ID)
+					}
+				} else {
+					violations++
+					fmt.Printf("VIOLATION property=%s replay=%s\n", prop, o.replayPath)
+					fmt.Printf("  harness=%s kind=%s label=%s diag=%v %s\n", o.v.Harness, o.v.Kind, o.v.Label, o.nativeDiag, o.v.Msg)
+				}
+			default:
+				fmt.Printf("UNCONFIRMED property=%s harness=%s kind=%s label=%s replay=%s (symbolic counterexample did not reproduce natively: engine/model defect)\n",
+					prop, o.v.Harness, o.v.Kind, o.v.Label, o.replayPath)
+				tail := o.output
+				if len(tail) > 1500 {
+					tail = tail[len(tail)-1500:]
+				}
+				fmt.Println(indent(tail))
+				problems = append(problems, "unconfirmed counterexample "+o.v.Label)
+				if status == 0 {
+					status = 3
+				}
+			}
+		}
+	} else if len(outs) > 0 {
+		for _, o := range outs {
+			fmt.Printf("CANDIDATE (not replayed) property=%s harness=%s kind=%s label=%s diag=%v %s\n  nondet=%v\n", prop, o.v.Harness, o.v.Kind, o.v.Label, o.v.Diag, o.v.Msg, o.v.Nondet)
+		}
+	}
+	var kf []string
+	for id := range knownSeen {
+		kf = append(kf, id)
+	}
+	sort.Strings(kf)
+	writeEvidence(verif, prop, tier, seed, spec, runs, results, time.Since(t0), strings.Join(problems, "; "), violations, kf)
+	g := &solver.Global
+	fmt.Printf("[%s %s] solver queries=%d cachehits=%d sat=%d unsat=%d unknown=%d errors=%d z3=%.1fs cvc5=%.1fs z3new=%.1fs total wall=%.1fs\n",
+		prop, tier, g.Queries, g.CacheHits, g.Sat, g.Unsat, g.Unknown, g.Errors, float64(g.NanosZ3)/1e9, float64(g.NanosCVC5)/1e9, float64(g.NanosZ3New)/1e9, time.Since(t0).Seconds())
+	if violations > 0 {
+		return 1
+	}
+	return status
+}
+
+func indent(s string) string {
+	return "    | " + strings.ReplaceAll(strings.TrimSpace(s), "\n", "\n    | ")
+}
+
+func matchKnown(list []KnownFinding, prop string, v interp.Violation, diag map[string]any) *KnownFinding {
+	for i := range list {
+		k := &list[i]
+		if k.Property != prop && k.Property != "*" {
+			continue
+		}
+		if k.Harness != "" && !strings.HasSuffix(v.Harness, k.Harness) {
+			continue
+		}
+		if k.Label != "" && k.Label != v.Label {
+			continue
+		}
+		ok := true
+		for key, want := range k.Where {
+			if strings.HasSuffix(key, "_contains") {
+				have := fmt.Sprint(diag[strings.TrimSuffix(key, "_contains")])
+				if !strings.Contains(have, fmt.Sprint(want)) {
+					ok = false
+				}
+				continue
+			}
+			if fmt.Sprint(diag[key]) != fmt.Sprint(want) {
+				ok = false
+			}
+		}
+		if ok {
+			return k
+		}
+	}
+	return nil
+}
+
+func writeReplay(dir, prop, tier string, v interp.Violation, run HRun, known map[string]bool) string {
+	var ks []string
+	for k := range known {
+		ks = append(ks, k)
+	}
+	sort.Strings(ks)
+	doc := map[string]any{
+		"property": prop, "harness": v.Harness, "tier": tier, "nondet": v.Nondet, "params": run.Params, "known": ks,
+		"assert": map[string]any{"label": v.Label, "kind": v.Kind, "diag": v.Diag, "msg": v.Msg},
+		"sched":  run.Sched, "schedule": v.Schedule,
+	}
+	b, _ := json.MarshalIndent(doc, "", " ")
+	h := sha1.Sum(b)
+	name := fmt.Sprintf("%s-%x.json", v.Harness[strings.LastIndex(v.Harness, ".")+1:], h[:5])
+	p := filepath.Join(dir, name)
+	os.WriteFile(p, b, 0o644)
+	return p
+}
+
+// buildReplayBinary compiles the package's test binary with the harness overlay.
+func buildReplayBinary(repo, verif string, prog *interp.Program, pkg string, race bool) (string, error) {
+	gen := filepath.Join(verif, ".gen")
+	os.MkdirAll(gen, 0o755)
+	ov, src, err := interp.BuildOverlay(filepath.Join(verif, "harness"), repo, true)
+	if err != nil {
+		return "", err
+	}
+	_ = ov
+	repl := map[string]string{}
+	for dst, s := range src {
+		repl[dst] = s
+	}
+	// generated test drivers: one per package that has harness functions
+	for dir, fns := range prog.HarnessFuncs() {
+		var sb strings.Builder
+		fmt.Fprintf(&sb, "package %s\n\nimport (\n\t\"testing\"\n\n\t\"%s/internal/vrt\"\n)\n\nfunc TestVerifReplay(t *testing.T) {\n\tvrt.RunReplay(t, map[string]func(){\n", fns.PkgName, interp.RepoModule)
+		for _, f := range fns.Names {
+			fmt.Fprintf(&sb, "\t\t%q: %s,\n", f, f)
+		}
+		sb.WriteString("\t})\n}\n")
+		gp := filepath.Join(gen, strings.ReplaceAll(strings.TrimPrefix(dir, repo), "/", "_")+"_zz_verif_replay_test.go")
+		if err := os.WriteFile(gp, []byte(sb.String()), 0o644); err != nil {
+			return "", err
+		}
+		repl[filepath.Join(dir, "zz_verif_replay_test.go")] = gp
+	}
+	ovJSON, _ := json.Marshal(map[string]any{"Replace": repl})
+	ovPath := filepath.Join(gen, "overlay.json")
+	if err := os.WriteFile(ovPath, ovJSON, 0o644); err != nil {
+		return "", err
+	}
+	binName := strings.ReplaceAll(pkg, "/", "_")
+	if binName == "" || binName == "." {
+		binName = "root"
+	}
+	if race {
+		binName += "_race"
+	}
+	bin := filepath.Join(gen, binName+".test")
+	args := []string{"test", "-c", "-vet=off", "-overlay", ovPath, "-o", bin}
+	if race {
+		args = append(args, "-race")
+	}
+	p := "./" + pkg
+	if pkg == "" || pkg == "." {
+		p = "."
+	}
+	args = append(args, p)
+	cmd := exec.Command("go", args...)
+	cmd.Dir = repo
+	cmd.Env = append(os.Environ(), "GOFLAGS=-mod=mod", "GOPROXY=off", "GOTOOLCHAIN=auto", "GOSUMDB=")
+	var out bytes.Buffer
+	cmd.Stdout, cmd.Stderr = &out, &out
+	if err := cmd.Run(); err != nil {
+		return "", fmt.Errorf("go test -c failed: %v\n%s", err, out.String())
+	}
+	return bin, nil
+}
+
+func runReplay(repo, bin, pkg, replay string) (string, error) {
+	cmd := exec.Command(bin, "-test.run", "^TestVerifReplay$", "-test.v", "-test.timeout", "60s")
+	cmd.Dir = filepath.Join(repo, pkg)
+	cmd.Env = append(os.Environ(), "VERIF_REPLAY="+replay)
+	var out bytes.Buffer
+	cmd.Stdout, cmd.Stderr = &out, &out
+	done := make(chan error, 1)
+	if err := cmd.Start(); err != nil {
+		return "", err
+	}
+	go func() { done <- cmd.Wait() }()
+	select {
+	case err := <-done:
+		return out.String(), err
+	case <-time.After(90 * time.Second):
+		cmd.Process.Kill()
+		<-done
+		return out.String() + "\nVERIF-REPLAY-TIMEOUT\n", fmt.Errorf("timeout")
+	}
+}
+
+func judgeReplay(v interp.Violation, out string, runErr error) (reproduced, diverged bool, diag map[string]any) {
+	diag = map[string]any{}
+	if strings.Contains(out, "VERIF-REPLAY-DIVERGED") {
+		return false, true, diag
+	}
+	switch v.Kind {
+	case "assert":
+		for _, line := range strings.Split(out, "\n") {
+			if !strings.HasPrefix(line, "VERIF-ASSERT-FAIL ") {
+				continue
+			}
+			rest := strings.TrimPrefix(line, "VERIF-ASSERT-FAIL ")
+			sp := strings.IndexByte(rest, ' ')
+			if sp < 0 {
+				continue
+			}
+			if rest[:sp] == v.Label {
+				json.Unmarshal([]byte(rest[sp+1:]), &diag)
+				return true, false, diag
+			}
+		}
+	case "panic":
+		if i := strings.Index(out, "VERIF-PANIC "); i >= 0 {
+			line := out[i+12:]
+			if j := strings.IndexByte(line, '\n'); j >= 0 {
+				line = line[:j]
+			}
+			diag["msg"] = line
+			return true, false, diag
+		}
+		if strings.Contains(out, "panic: ") || strings.Contains(out, "fatal error: ") {
+			i := strings.Index(out, "panic: ")
+			if i < 0 {
+				i = strings.Index(out, "fatal error: ")
+			}
+			line := out[i:]
+			if j := strings.IndexByte(line, '\n'); j >= 0 {
+				line = line[:j]
+			}
+			diag["msg"] = line
+			return true, false, diag
+		}
+	case "deadlock":
+		if strings.Contains(out, "all goroutines are asleep") || strings.Contains(out, "VERIF-REPLAY-TIMEOUT") || strings.Contains(out, "test timed out") || strings.Contains(out, "VERIF-DEADLOCK") {
+			diag["msg"] = "deadlock"
+			return true, false, diag
+		}
+	case "race":
+		if strings.Contains(out, "WARNING: DATA RACE") {
+			diag["msg"] = v.Label
+			return true, false, diag
+		}
+	}
+	return false, false, diag
+}
+
+// ---- evidence ----
+
+func writeEvidence(verif, prop, tier string, seed int, spec PropSpec, runs []HRun, results []*interp.HarnessResult, wall time.Duration, problems string, violations int, knownSeen []string) {
+	level := spec.Level
+	if level == "" {
+		level = "model_checking"
+	}
+	var paths, completed, obligs, discharged, trivial, feasQ, branches, steps int64
+	var distinct int
+	var samples []any
+	var harnesses []any
+	fnSet := map[string][2]int{}
+	covers := map[string]int64{}
+	for i, r := range results {
+		paths += r.Paths
+		completed += r.Completed
+		obligs += r.Obligs
+		discharged += r.Discharged
+		trivial += r.Trivial
+		feasQ += r.FeasQ
+		branches += r.Branches
+		steps += r.Steps
+		distinct += r.Distinct
+		for c, n := range r.Covers {
+			covers[c] += n
+		}
+		for _, s := range r.Samples {
+			if len(samples) < 8 {
+				samples = append(samples, map[string]any{"harness": r.Harness, "path": s})
+			}
+		}
+		h := map[string]any{"harness": r.Harness, "paths": r.Paths, "completed_paths": r.Completed, "paths_ended_by_assume": r.AssumeEnded,
+			"ssa_instructions": r.Steps, "symbolic_branch_decisions": r.Branches, "feasibility_queries": r.FeasQ,
+			"obligations": r.Obligs, "discharged": r.Discharged, "discharged_by_constant_folding_or_earlier_branch_query": r.Trivial,
+			"max_decisions_on_a_path": r.MaxDecisions, "violation_classes": len(r.Violations), "wall_s": r.Wall.Seconds(),
+			"cover_witnesses": r.Covers, "expected_covers": r.Expected}
+		if i < len(runs) {
+			h["params"] = runs[i].Params
+			h["scheduler_mode"] = runs[i].Sched
+			h["preemption_bound"] = runs[i].Preempt
+			h["race_monitor"] = runs[i].Race
+			h["note"] = runs[i].Note
+		}
+		harnesses = append(harnesses, h)
+		for name, tf := range r.FuncCoverage() {
+			cur := fnSet[name]
+			if tf[0] > cur[0] {
+				cur[0] = tf[0]
+			}
+			cur[1] = tf[1]
+			fnSet[name] = cur
+		}
+	}
+	var fnames []string
+	for n := range fnSet {
+		fnames = append(fnames, n)
+	}
+	sort.Strings(fnames)
+	var encoded []string
+	for _, n := range fnames {
+		encoded = append(encoded, fmt.Sprintf("%s [branches both ways: %d/%d]", n, fnSet[n][0], fnSet[n][1]))
+	}
+	if len(samples) == 0 {
+		samples = append(samples, map[string]any{"note": "no completed path"})
+	}
+	g := &solver.Global
+	cov := map[string]any{
+		"states":                        paths,
+		"transitions":                   branches + paths,
+		"traces_validated_against_impl": 0,
+		"samples":                       samples,
+		"evaluations":                   paths,
+		"distinct_nontrivial":           distinct,
+		"rule":                          "one evaluation = one feasible symbolic path (distinct decision vector) through harness + real code; it is non-trivial when it ran to the end of the harness and carried at least one assertion obligation; every path stands for all concrete inputs satisfying its path condition",
+		"obligations":                   obligs,
+		"discharged":                    discharged,
+		"explanation":                   "SSA of /repo's current tree interpreted symbolically; every symbolic branch decided by SMT feasibility queries; assertions are queries pc ∧ ¬assertion that must be unsat; violations replayed natively",
+		"harnesses":                     harnesses,
+		"functions_encoded":             encoded,
+		"bounds":                        spec.Bounds,
+		"solver": map[string]any{"queries": g.Queries, "cache_hits": g.CacheHits, "sat": g.Sat, "unsat": g.Unsat, "unknown": g.Unknown, "errors": g.Errors,
+			"z3_s": float64(g.NanosZ3) / 1e9, "cvc5_s": float64(g.NanosCVC5) / 1e9, "z3new_s": float64(g.NanosZ3New) / 1e9, "trivial": g.Trivial},
+		"cover_witnesses":   covers,
+		"known_findings":    knownSeen,
+		"problems":          problems,
+		"exhaustive":        problems == "",
+		"completed_paths":   completed,
+		"ssa_instructions":  steps,
+		"trivially_discharged": trivial,
+	}
+	ev := map[string]any{
+		"property_id": prop, "tier": tier, "seed": seed, "level": level, "coverage": cov,
+		"assumptions": spec.Assume, "wall_s": wall.Seconds(), "violations": violations,
+	}
+	b, _ := json.MarshalIndent(ev, "", " ")
+	os.MkdirAll(filepath.Join(verif, "evidence"), 0o755)
+	os.WriteFile(filepath.Join(verif, "evidence", prop+".json"), b, 0o644)
+}
